@@ -13,6 +13,7 @@ NAME = "lower_method_gate"
 ENGINE = "verus"
 PROPERTIES = {"C13": "methods whose attrs are disabled for the backend are skipped by lowering (absent from the backend's HIR), the others go through the gate",
               "C05": "method-level gate: Ok only if self, every non-write parameter and the return type are accepted; DiplomatWrite only as last parameter",
+              "C06": "lower_method copies the AST's abi_name (the exported symbol) into the HIR method unchanged (through lower_ident)",
               "C15": "lower_method / lower_many_params / lower_param are panic-free"}
 F = "core/src/hir/lowering.rs"
 METHODS = "core/src/ast/methods.rs"
@@ -97,6 +98,7 @@ pub open spec fn input_params(m: &ast::Method) -> Seq<ast::Param> {
 pub open spec fn params_ok(l: &LookupId, ps: Seq<ast::Param>, in_path: ast::Path, env: Env) -> bool {
     forall|i: int| 0 <= i < ps.len() ==> allowed_in(l, (#[trigger] ps[i]).ty, in_path, env, false)
 }
+pub uninterp spec fn spec_lower_ident(i: ast::Ident) -> IdentBuf;
 pub open spec fn method_ok(l: &LookupId, m: &ast::Method, in_path: ast::Path, env: Env) -> bool {
     &&& params_ok(l, input_params(m), in_path, env)
     &&& (m.self_param is Some ==> self_ok(l, m.self_param.unwrap(), in_path, env))
@@ -213,10 +215,11 @@ ABSTRACT_GATES = """
         ensures
 {FRAME}
     {{ unimplemented!() }}
-    // lower_ident validates the identifier string (strck): abstract
+    // lower_ident validates the identifier string (strck): a partial function of the identifier
     #[verifier::external_body]
     fn lower_ident(&mut self, ident: &ast::Ident, context: &'static str) -> (res: Result<IdentBuf, ()>)
         ensures
+            res.is_ok() ==> res.unwrap() == spec_lower_ident(*ident),
 {FRAME}
     {{ unimplemented!() }}
 """
@@ -274,6 +277,8 @@ LM_CONTRACT = f"""        ensures {CANARY}
             res.is_ok() ==> return_shape(method.return_type, spec_takes_write(method), res.unwrap().output)
                 && res.unwrap().params@.len() == input_params(method).len()
                 && (res.unwrap().param_self is Some) == (method.self_param is Some),
+            // the exported symbol computed on the AST side (unit method_abi_name) is what every backend reads from the HIR
+            res.is_ok() ==> res.unwrap().abi_name == spec_lower_ident(method.abi_name),
 {G.FRAME}"""
 
 
@@ -465,4 +470,4 @@ ASSUMPTIONS = list(G.ASSUMPTIONS) + [
     "lower_ident (strck identifier validation) and SelfParamLifetimeLowerer::new abstract: may fail, and then push an error",
     "<[T]>::split_last assume_specification; derived PartialEq on TypeName structural",
 ]
-UNVERIFIED = {"C13": ["Attrs::from_ast (how disable is computed from the cfg: syn Meta dispatch)"], "C05": ["lower_opaque / lower_enum / lower_trait", "validate / validate_ty_in_method"], "C15": []}
+UNVERIFIED = {"C13": ["Attrs::from_ast (how disable is computed from the cfg: syn Meta dispatch)"], "C05": ["lower_opaque / lower_enum / lower_trait", "validate / validate_ty_in_method"], "C15": [], "C06": ["lower_opaque copying dtor_abi_name (read: same lower_ident call)"]}
